@@ -125,7 +125,13 @@ pub fn compare(ctx: &Ctx, out: &mut Out, text: &str, gtext: &str, origin: &str) 
     }
     let req = if graph {
         out.count(&format!("graph_shape_{}", shape));
-        tagged("compatible", vec![answer_generic(&answers[0]), answer_generic(&answers[1]), atom(&format!("graph-{}", shape))])
+        tagged("compatible", vec![answer_generic(&answers[0]), answer_generic(&answers[1]), atom(&format!(
+            "graph-{}{}-slg_{}-rec_{}",
+            shape,
+            if gtext.contains("not {") { "-neg" } else { "" },
+            answer_kind(&Ok(answers[0].clone())),
+            answer_kind(&Ok(answers[1].clone()))
+        ))])
     } else {
         tagged("compatible", vec![answer_generic(&answers[0]), answer_generic(&answers[1])])
     };
